@@ -288,12 +288,26 @@ CLAIMED.update({
 CLAIMED['C15'] = dict(
     text='Theorem C15_selection_exact: for every source port tree and every rule sets (exclude arbitrary, include without ancestor '
          'pairs) the leaves copied by the absorb model are exactly those selected under component-wise path matching, in order; '
-         'C15_sibling_with_shared_prefix_not_selected; C15_include_exclude_rejected. Independence of the copies (both directions), '
-         'namespace properties and option overrides, preservation of the destination\'s other ports are decided by Python '
-         'monitors on the real spec objects for every generated case.',
-    note='Modelled, not verified: the loop of PortNamespace.absorb with strip_namespace (value semantics). Object identity / '
-         'aliasing is not in the model (copy.copy, copy.deepcopy are trusted runtime); it is probed on the real objects.',
-    technique='Lean 4 structural-induction proof of the selection rule + differential correspondence and mutate-after probes on real specs',
+         'C15_sibling_with_shared_prefix_not_selected; C15_include_exclude_rejected. Full model of the whole call '
+         'ProcessSpec._expose_ports (create_port_namespace + absorb) on port objects with identities, namespace properties, dict '
+         'assignment and an allocation counter, for every source tree, destination tree, rule sets, target path and options: '
+         'C15_full_placement_selection (the target namespace afterwards is the namespace create_port_namespace returned, same '
+         'identity, old keys in place, overloaded properties, its dict updated with a dict of copies whose leaves are exactly the '
+         'selected ones), C15_full_copy_mirrors_source / C15_full_nested_props_unchanged (attributes and properties of the '
+         'copies at every depth), C15_full_overloaded_props, C15_full_target_existing_or_new, C15_full_copies_fresh, '
+         'C15_full_frame and C15_full_destination_kept (other ports are the same objects with the same contents), '
+         'C15_full_independent and C15_full_seq_invariant (source and destination share no object; invariant over sequences '
+         'of calls, returning or raising), C15_full_guard_rejects_unchanged, C15_full_include_exclude_rejected, '
+         'C15_full_unknown_option_rejected, C15_full_options_accepted_iff, C15_full_rejected_adds_no_port (a rejected call adds '
+         'and removes no port; it may leave empty namespaces on the target path and overloaded target properties, as the real '
+         'code does). The full model is compared with the real expose_inputs / expose_outputs object by object (identity by '
+         '`is`) after every call of generated sequences of calls.',
+    note='Modelled, not verified: PortNamespace.absorb / strip_namespace / create_port_namespace / __setitem__ / '
+         'valid_type.setter and ProcessSpec._expose_ports (hand-written Lean mirror, differential check per call); copy.copy / '
+         'copy.deepcopy are represented by their contract (fresh identity, same property values / equal attributes). Property '
+         'VALUES are atoms: a value object shared by reference between a source namespace and its copy is outside the model.',
+    technique='Lean 4 structural-induction proofs (selection rule; walk of the target path; loop of absorb as copies + dict '
+              'assignment; allocation-counter invariant) + differential correspondence on objects and mutate-after probes on real specs',
     design='6/C15')
 
 CLAIMED['C03'] = dict(
